@@ -32,7 +32,7 @@ try:
     res["demo_output"] = (r1.stdout + r1.stderr)[-400:]
     checks = {}
     for c in [prop] + extra:
-        e2 = dict(os.environ, VERIF_REPO=d)
+        e2 = dict(os.environ, VERIF_REPO=d, VERIF_FAILFAST="20")
         r = subprocess.run(["/verif/check", c, "--tier", "quick"], env=e2, cwd="/verif",
                            capture_output=True, text=True)
         kinds = sorted({ln.split('"kind": "')[1].split('"')[0] for ln in r.stdout.split("\n")
